@@ -14,8 +14,8 @@ Fixpoint rr_types (fuel : nat) (n : nat) (body : list N) (off : Z) : option (lis
   | S k =>
       match go_ParseRR fuel body off with
       | Some (rr, true) =>
-          match rr_types fuel k body (T_RR_End rr) with
-          | Some (ts, e) => Some (T_RR_Type rr :: ts, e)
+          match rr_types fuel k body (T_wire_RR_End rr) with
+          | Some (ts, e) => Some (T_wire_RR_Type rr :: ts, e)
           | None => None
           end
       | _ => None
@@ -77,3 +77,24 @@ Definition stored_walk_ok (fuel : nat) (bytes : list N) (qtype : N) (full : vbod
       end
   | _ => false
   end.
+
+(* ---- a decoded message (the translated dns.Msg with dns.RR as a sum type) as Verdict.v's body, for the tie of
+   the translated dnsutil.ClearDNSSEC (Proofs_cleardnssec.v) ---- *)
+(* the record type a value stands for: fixed by the dynamic Go type for the listed ones, the header's otherwise *)
+Definition rr_type (r : I_RR) : N :=
+  match r with
+  | I_RR_nil => 0
+  | I_RR_of_RRSIG _ => 46
+  | I_RR_of_NSEC _ => 47
+  | I_RR_of_NSEC3 _ => 50
+  | I_RR_other _ h => T_RR_Header_Rrtype h
+  end.
+Definition rr_abs (r : I_RR) : rrec N := mk_rrec N (rr_type r) 0 0 0.
+(* the library's invariant: a record whose Go type is none of *RRSIG / *NSEC / *NSEC3 does not claim one of
+   their type numbers in its header (what dns.TypeToRR guarantees for every record the library builds) *)
+Definition rr_typed (r : I_RR) : Prop :=
+  match r with I_RR_other _ h => is_dnssec (T_RR_Header_Rrtype h) = false | _ => True end.
+Definition msg_body (m : T_Msg) : vbody N :=
+  mk_vbody N (Z.to_N (T_MsgHdr_Rcode (T_Msg_MsgHdr m))) (T_MsgHdr_AuthenticatedData (T_Msg_MsgHdr m))
+    (map rr_abs (T_Msg_Answer m)) (map rr_abs (T_Msg_Ns m)) (map rr_abs (T_Msg_Extra m)).
+
